@@ -25,14 +25,12 @@ ASSUMPTIONS = ["vlib.fock matrices (<= 4 modes) and dense Pauli matrices (<= 4 q
                "do_commute oracle: True must imply a vanishing commutator, and term-wise commuting operators must give True; "
                "term_resolved[i] must equal 'term i commutes with every term of B'"]
 ANCHORS = [
-    ("tangelo/toolboxes/operators/operators.py", "42-110", "FermionOperator binary operators"),
-    ("tangelo/toolboxes/operators/operators.py", "288-314", "QubitHamiltonian addition / comparison compatibility checks"),
+    ("tangelo/toolboxes/operators/operators.py", "__imul__,__mul__,__add__,__radd__,__isub__,__sub__,__rsub__", "FermionOperator binary operators"),
+    ("tangelo/toolboxes/operators/operators.py", "__iadd__,__eq__", "QubitHamiltonian addition / comparison compatibility checks"),
     ("tangelo/toolboxes/operators/multiformoperator.py", "from_qubitop,__mul__,collapse", "integer/binary encodings, phase table, duplicate collapse"),
     ("tangelo/toolboxes/operators/multiformoperator.py", "do_commute", "symplectic commutation test"),
 ]
-REQUIRED = {"fermion_value": 300, "fermion_operands_unchanged": 300, "qubit_value": 200, "qubit_operands_unchanged": 200,
-            "chain_shadow": 200, "hamiltonian_with_plain_operator": 40, "multiform_product": 60, "multiform_collapse": 60,
-            "do_commute": 100, "do_commute_term_resolved": 100}
+REQUIRED = {"fermion_value": 196, "fermion_operands_unchanged": 300, "qubit_value": 111, "qubit_operands_unchanged": 200, "chain_shadow": 200, "hamiltonian_with_plain_operator": 17, "multiform_product": 60, "multiform_collapse": 60, "do_commute": 64, "do_commute_term_resolved": 64}
 BUDGET = {"quick": 240, "thorough": 2400}
 TOL = 1e-9
 NM = 3   # fermionic modes for dense algebra (8x8)
